@@ -6,6 +6,11 @@ import json
 
 from compare import norm
 
+
+def vn(pid):
+    """passage name as part of a variable name (gen_story.vn)"""
+    return pid.replace(".", "_")
+
 SAFE_BUILTINS = {"len": len, "str": str, "int": int, "bool": bool, "list": list, "dict": dict, "range": range,
                  "sum": sum, "min": min, "max": max, "abs": abs, "sorted": sorted, "repr": repr}
 
@@ -147,7 +152,7 @@ def oracle_c03(case):
                     out.append(fail(i, f"passage counter {k} moved by {d} in one navigation", "C08-mixed-cycle" if has_top else None))
             if "out" in resp:
                 pid = resp["out"]["pid"]
-                k = "n_" + pid
+                k = "n_" + vn(pid)
                 if k in counters and isinstance(counters[k], int) and counters[k] - counters_prev.get(k, 0) != 1 \
                         and not (name == "choose" and _is_join(prev, op)):
                     out.append(fail(i, f"final passage {pid} was not entered exactly once"))
@@ -215,7 +220,7 @@ def expected_top_choices(story, st, sec=None, own_used=None):
     env = st["vars"]
     if p.get("params"):
         # the passage recorded its parameters on entry (probe `lk_<pid> = dict(_local)`): conditions see them over the globals
-        lk = st["vars"].get("lk_" + pid)
+        lk = st["vars"].get("lk_" + vn(pid))
         if not isinstance(lk, dict) or set(lk) != {q["name"] for q in p["params"]} or own_used is None:
             return None
         env = dict(st["vars"], **lk)
@@ -302,7 +307,7 @@ def oracle_c02(case):
                     has_jump = _has_jump(tp)
                     if not has_jump and resp["out"]["pid"] != tgt:
                         out.append(fail(i, f"choose({idx}) showed target {tgt} but landed in {resp['out']['pid']}"))
-                    k = "n_" + tgt
+                    k = "n_" + vn(tgt)
                     if k in st["vars"] and isinstance(st["vars"][k], int) and st["vars"][k] != prev["vars"].get(k, 0) + 1 and not case.get("cycles"):
                         out.append(fail(i, f"choose({idx}) did not enter its target {tgt} exactly once"))
         # a choice reached while rendering (inside @if / @for) is offered or filtered — never handed out as a render directive
@@ -327,7 +332,7 @@ def oracle_c02(case):
                     if prev is not st:
                         leaked = any(p.get("params") and pid != final and _entered(prev, st, pid) for pid, p in story["passages"].items())
                     else:       # the constructor's own chain: Start -> P(args) -> …
-                        leaked = any(p.get("params") and pid != final and isinstance(st["vars"].get("n_" + pid), int) and st["vars"]["n_" + pid] > 0
+                        leaked = any(p.get("params") and pid != final and isinstance(st["vars"].get("n_" + vn(pid)), int) and st["vars"]["n_" + vn(pid)] > 0
                                      for pid, p in story["passages"].items())
                     # C02-F1: the list was filtered BEFORE the turn_end hooks ran — it is exactly what is enabled in the
                     # variables as they stood when the hooks started (recorded by the harness), and a hook changed them
@@ -404,11 +409,11 @@ def py_bind(params, args_src, env):
 
 def _has_probe(story, pid):
     p = story["passages"].get(pid, {})
-    return any(c.get("type") == "python_statement" and c.get("code", "").startswith(f"lk_{pid} =") for c in p.get("execute", []))
+    return any(c.get("type") == "python_statement" and c.get("code", "").startswith(f"lk_{vn(pid)} =") for c in p.get("execute", []))
 
 
 def _entered(prev, st, pid):
-    a, b = prev["vars"].get("n_" + pid, 0), st["vars"].get("n_" + pid, 0)
+    a, b = prev["vars"].get("n_" + vn(pid), 0), st["vars"].get("n_" + vn(pid), 0)
     return isinstance(a, int) and isinstance(b, int) and b == a + 1
 
 
@@ -452,7 +457,7 @@ def oracle_c07(case):
                     exp = ("binderr", str(be))
                 except Exception:  # noqa  (argument code itself failed: ValueError path of the engine)
                     exp = None
-                got = st["vars"].get("lk_" + target)
+                got = st["vars"].get("lk_" + vn(target))
                 if isinstance(exp, dict):
                     try:
                         import real_play
@@ -466,7 +471,7 @@ def oracle_c07(case):
                     # the passage's own render directive sees the parameters (shadowing same-named globals)
                     if exp_c is not None and "out" in resp:
                         for dct in resp["out"]["rdirs"]:
-                            if dct.get("name") == "pr_" + target and dct.get("mode") == "evaluated":
+                            if dct.get("name") == "pr_" + vn(target) and dct.get("mode") == "evaluated":
                                 want = {f"arg_{j}": exp_c[q["name"]] for j, q in enumerate(params)}
                                 if dct.get("data") != want:
                                     out.append(fail(i, f"render directive of {target} saw {dct.get('data')}, parameters are {exp_c}"))
@@ -479,7 +484,7 @@ def oracle_c07(case):
             counters = [k for k in st["vars"] if k.startswith("n_") and isinstance(st["vars"][k], int)]
             moved = [k for k in counters if st["vars"][k] != prev["vars"].get(k, 0)]
             if len(moved) == 1 and st["vars"][moved[0]] == prev["vars"].get(moved[0], 0) + 1:
-                pid = moved[0][2:]
+                pid = {vn(p_): p_ for p_ in story["passages"]}.get(moved[0][2:], moved[0][2:])
                 # (an @py block runs in the globals — it does not see the parameters — and may assign any global)
                 has_py = "python_block" in json.dumps(story["passages"].get(pid, {}))
                 for q in ([] if has_py else story["passages"].get(pid, {}).get("params", [])):
@@ -491,7 +496,7 @@ def oracle_c07(case):
             entered_param = [pid for pid, p in story["passages"].items() if p.get("params") and _entered(prev, st, pid)]
             for pid, p in story["passages"].items():
                 if not p.get("params") and _has_probe(story, pid) and _entered(prev, st, pid):
-                    got = st["vars"].get("lk_" + pid)
+                    got = st["vars"].get("lk_" + vn(pid))
                     if got not in ({}, None):
                         out.append(fail(i, f"passage {pid} has no parameters but saw the scope {got}",
                                         "C07-block-jump-scope" if entered_param else None))
